@@ -167,6 +167,11 @@ func runCase(run *evid.Run, idx int) caseOut {
 	defer srv.Close()
 	c := &cse{run: run, env: env, srv: srv, idx: idx, rnd: r, url: srv.Endpoint(repoKey), lockable: map[string]bool{}, oddPaths: map[string]bool{}, reported: map[string]bool{}, kinds: map[string]bool{}}
 	c.flavor = flavors[idx%len(flavors)]
+	if idx%8 == 2 {
+		// two overlapping processes of one user in one clone (overlap.go); 5 of 40 cases
+		c.flavor = "overlap"
+		c.ovShape = []string{"verify+lock", "lock+verify", "verify+lock", "unlock+verify", "lock+lock"}[(idx/8)%5]
+	}
 	c.roHow = []string{"unset", "unset", "true", "false"}[r.Intn(4)]
 	c.readonly = c.roHow != "false"
 	c.page = []int{0, 0, 1, 2}[r.Intn(4)]
@@ -201,6 +206,12 @@ func runCase(run *evid.Run, idx int) caseOut {
 	}
 	srv.PageSize = c.page
 	srv.SetHook(func(rq *fakelfs.Request) *fakelfs.Fault {
+		if rq.Header.Get(internalHeader) != "" {
+			return nil
+		}
+		if f := c.holdHook(rq); f != nil {
+			return f
+		}
 		if c.flavor == "verify-unimpl" && rq.Kind == "lock-verify" {
 			return &fakelfs.Fault{Status: c.unimpl}
 		}
@@ -218,6 +229,12 @@ func runCase(run *evid.Run, idx int) caseOut {
 	c.seqLen = 1 + r.Intn(30)
 	if r.Intn(2) == 0 {
 		c.seqLen = 1 + r.Intn(16)
+	}
+	if c.flavor == "overlap" {
+		if c.seqLen < 9 {
+			c.seqLen += 9
+		}
+		c.ovAt = 3 + r.Intn(5) // a few ordinary commands first
 	}
 	if c.t1Later && c.seqLen < 10 {
 		c.seqLen += 10 // a second page needs several locks first
@@ -237,6 +254,9 @@ func runCase(run *evid.Run, idx int) caseOut {
 	fl := c.flavor
 	if c.odd != "" {
 		fl += ":" + c.odd
+	}
+	if c.ovShape != "" {
+		fl += ":" + c.ovShape
 	}
 	class := fmt.Sprintf("%s/lv=%s,%s/ro=%s/page=%d/len=%s", c.flavor, c.lv[0], c.lv[1], map[bool]string{true: "on", false: "off"}[c.readonly], c.page, lenBucket(c.seqLen))
 	class = strings.Replace(class, c.flavor+"/", fl+"/", 1)
@@ -266,6 +286,13 @@ func runCase(run *evid.Run, idx int) caseOut {
 				} else if r.Intn(5) == 0 {
 					s = step{user: u, op: "push", o: opt{t1: true}}
 				}
+			case c.flavor == "overlap" && c.ovAt > 0 && c.nstep >= c.ovAt && len(c.queue) == 0:
+				c.ovAt = 0
+				u := prev
+				if len(oursOf(c.table(), c.users[1-prev].name)) > len(oursOf(c.table(), c.users[prev].name)) {
+					u = 1 - prev
+				}
+				s = step{user: u, op: "overlap", o: opt{mode: c.ovShape}}
 			case len(c.queue) > 0:
 				s, c.queue = c.queue[0], c.queue[1:]
 			default:
@@ -285,6 +312,10 @@ func runCase(run *evid.Run, idx int) caseOut {
 		}
 	}
 	for _, rq := range srv.Log() {
+		if rq.Header.Get(internalHeader) != "" {
+			c.count("server_requests_forwarded_by_hold_hook", 1)
+			continue
+		}
 		c.count(fmt.Sprintf("server_%s_%d", rq.Kind, rq.Status), 1)
 	}
 	c.count("sequence_commands", int64(c.nstep))
@@ -315,7 +346,7 @@ func (c *cse) count(name string, n int64) {
 func main() {
 	run := evid.New("C16", "exploration")
 	defer sbx.RemoveBase()
-	run.Rule = "seeded sequences (length uniform in 1..30, a scripted 3-5 command opening in 3 of 5 cases) over {lock p, unlock p, unlock --id, unlock --force [p|--id], locks [--path|--id|--limit], locks --verify [--json], locks --local, locks [--verify] --cached, checkout <branch>, checkout HEAD -- <files>, edit(+add), commit, merge/pull, push [one|both branches]} executed by two users (user switches with p=0.4 per step) on two clones of one bare remote against one fake LFS server; paths: lockable LFS (*.dat), lockable non-LFS (*.txt), non-lockable LFS (*.bin), plain, plus lockable files that exist on one branch only (only-main.dat/.txt, only-side.dat) and files removed from the work tree without committing (rm), so that lock/unlock (by path, --id, --force) also hit files ABSENT from the work tree, followed by the checkout/merge that brings them back; coordinates per case: flavor {plain, verify5xx (one 5xx on a verifiable listing = the single known trigger), verify-unimpl (404/501 on locks/verify), locks-unimpl (404/501 on every lock endpoint), odd-path (two extra lockable files whose name contains a space, a double quote, non-ASCII letters or a tab), subdir-cwd (lock/unlock of sub/… issued from inside sub/), dup-content (edits may copy another file's content)}; in every 4th case the pushes run the race-instrumented binary and data-race reports touching commands.lockVerifier count as violations x locksverify(alice,bob) in {unset,true,false} via lfs.<url>.locksverify or lfs.locksverify x lfs.setlockablereadonly {unset,true,false} x server page size {0,1,2}; other answers arise from the sequence (409 on a held path, 403 on a foreign unlock, 404 on a stale id) or from scripted 500/502/503 on lock create/delete/list. Class = (flavor, locksverify pair, readonly on/off, page size, length bucket). Oracles after every command: push verdict, write bits of the files whose flags the command fixes, `locks --local --json` (ids and paths) of the acting user == sequence-defined expected cache (the other user's cache is compared at every change of the acting user and at the end of the sequence), `locks [--verify] --cached --json` == last unambiguous remote listing, unlock guard, no Go panic; in verify5xx cases the fault hits either the first verify request or (paginated server) every page after the first."
+	run.Rule = "seeded sequences (length uniform in 1..30, a scripted 3-5 command opening in 3 of 5 cases) over {lock p, unlock p, unlock --id, unlock --force [p|--id], locks [--path|--id|--limit], locks --verify [--json], locks --local, locks [--verify] --cached, checkout <branch>, checkout HEAD -- <files>, edit(+add), commit, merge/pull, push [one|both branches]} executed by two users (user switches with p=0.4 per step) on two clones of one bare remote against one fake LFS server; paths: lockable LFS (*.dat), lockable non-LFS (*.txt), non-lockable LFS (*.bin), plain, plus lockable files that exist on one branch only (only-main.dat/.txt, only-side.dat) and files removed from the work tree without committing (rm), so that lock/unlock (by path, --id, --force) also hit files ABSENT from the work tree, followed by the checkout/merge that brings them back; coordinates per case: flavor {overlap (1 case in 8: after a few ordinary commands two git-lfs processes of the same user overlap deterministically in one clone — the server hook computes/applies the request of process A, holds its response, process B runs to completion, A is released — in the shapes verify+lock, lock+verify, unlock+verify, lock+lock|unlock; expected cache = both effects = server's own-lock table), plain, verify5xx (one 5xx on a verifiable listing = the single known trigger), verify-unimpl (404/501 on locks/verify), locks-unimpl (404/501 on every lock endpoint), odd-path (two extra lockable files whose name contains a space, a double quote, non-ASCII letters or a tab), subdir-cwd (lock/unlock of sub/… issued from inside sub/), dup-content (edits may copy another file's content)}; in every 4th case the pushes run the race-instrumented binary and data-race reports touching commands.lockVerifier count as violations x locksverify(alice,bob) in {unset,true,false} via lfs.<url>.locksverify or lfs.locksverify x lfs.setlockablereadonly {unset,true,false} x server page size {0,1,2}; other answers arise from the sequence (409 on a held path, 403 on a foreign unlock, 404 on a stale id) or from scripted 500/502/503 on lock create/delete/list. Class = (flavor, locksverify pair, readonly on/off, page size, length bucket). Oracles after every command: push verdict, write bits of the files whose flags the command fixes, `locks --local --json` (ids and paths) of the acting user == sequence-defined expected cache (the other user's cache is compared at every change of the acting user and at the end of the sequence), `locks [--verify] --cached --json` == last unambiguous remote listing, unlock guard, no Go panic; in verify5xx cases the fault hits either the first verify request or (paginated server) every page after the first."
 	run.Assumptions = []string{
 		"ownership ground truth = lock table of the fake server; commands of the two users never overlap in time",
 		"expected cache of a user: + lock granted (201), - unlock confirmed (200), replaced by the server's ours list at every successful `git lfs locks --verify`; after a push whose verify requests all succeeded both the unchanged and the replaced set are accepted (the statement does not say that a push refreshes the cache)",
